@@ -20,6 +20,7 @@ import (
 	"github.com/aws/aws-sdk-go-v2/service/s3"
 	"github.com/aws/aws-sdk-go-v2/service/s3/types"
 	"github.com/aws/smithy-go"
+	smithyhttp "github.com/aws/smithy-go/transport/http"
 	"github.com/jdillenkofer/pithos/internal/lifecycle"
 	"github.com/jdillenkofer/pithos/internal/sliceutils"
 	"github.com/jdillenkofer/pithos/internal/storage"
@@ -384,6 +385,11 @@ func (rs *s3ClientStorage) HeadObject(ctx context.Context, bucketName storage.Bu
 			return nil
 		}(),
 	})
+	if err != nil {
+		if deleteMarkerErr := deleteMarkerError(err); deleteMarkerErr != nil {
+			return nil, deleteMarkerErr
+		}
+	}
 	var notFoundError *types.NotFound
 	if err != nil && errors.As(err, &notFoundError) {
 		return nil, storage.ErrNoSuchBucket
@@ -644,6 +650,32 @@ func copySourceValue(srcBucket storage.BucketName, srcKey storage.ObjectKey, sou
 		value += "?versionId=" + url.QueryEscape(*sourceVersionID)
 	}
 	return value
+}
+
+// deleteMarkerError recognises the S3 responses for a delete marker (404 for a
+// current delete marker, 405 for a version-addressed one, both flagged with
+// x-amz-delete-marker) and converts them to the matching storage errors.
+func deleteMarkerError(err error) error {
+	var responseError *smithyhttp.ResponseError
+	if !errors.As(err, &responseError) || responseError.Response == nil {
+		return nil
+	}
+	header := responseError.Response.Header
+	if header.Get("x-amz-delete-marker") != "true" {
+		return nil
+	}
+	versionID := header.Get("x-amz-version-id")
+	switch responseError.HTTPStatusCode() {
+	case http.StatusNotFound:
+		return &storage.CurrentDeleteMarkerError{VersionID: versionID}
+	case http.StatusMethodNotAllowed:
+		methodNotAllowedErr := &storage.VersionDeleteMarkerMethodNotAllowedError{VersionID: versionID}
+		if lastModified, parseErr := http.ParseTime(header.Get("Last-Modified")); parseErr == nil {
+			methodNotAllowedErr.LastModified = lastModified
+		}
+		return methodNotAllowedErr
+	}
+	return nil
 }
 
 func translateS3CopyError(err error) error {
